@@ -152,6 +152,8 @@ func replayFindings(r *hx.Run, eval func(c *progCase) (sig, msg string)) {
 			}
 		case f.Status == "known" && f.Match(sig):
 			r.KnownLine(f)
+		case f.Status == "fixed" && (r.MatchKnown(sig) != nil || r.MatchKnownOf("C03", sig) != nil):
+			// the repaired defect is gone; what remains at this input is a different, listed finding
 		default:
 			r.Report(&c, sig, "replay of %s finding %s: %s", f.Status, f.ID, msg)
 		}
